@@ -6,6 +6,7 @@
 //! it is caught and reported in the observation.  Hangs and aborts are handled by the supervisor in
 //! lib/vlib.py (watchdog + restart after the stuck case).  Nothing here decides a property.
 mod compile;
+mod layout;
 mod lists;
 mod multi;
 mod num;
@@ -107,6 +108,7 @@ fn dispatch(sub: &str, case: &Value, extra: &[String]) -> Value {
         "store" => storecmd::store_case(case),
         "opt" => opt::opt_case(case),
         "multi" => multi::multi_case(case),
+        "layout" => layout::layout_case(case),
         "tables" => compile::tables_case(case),
         _ => json!({"error": format!("unknown subcommand {}", sub)}),
     }
